@@ -2,6 +2,17 @@
 #include "common.h"
 #include "ledger.h"
 #include "myth_verif.h"
+#if defined(__has_feature)
+#if __has_feature(address_sanitizer)
+#define LEDGER_ASAN 1
+void __asan_unpoison_memory_region(void const volatile * addr, size_t size);
+#endif
+#endif
+#ifdef LEDGER_ASAN
+#define UNPOISON(lo, n) __asan_unpoison_memory_region((lo), (n))
+#else
+#define UNPOISON(lo, n) ((void)0)
+#endif
 
 #define MAXLT 131072
 #define HSZ (1 << 18)
@@ -61,6 +72,8 @@ static void on_alloc(int kind, void * ptr, size_t size, int rank) {
     }
     lthread_t * e = (rank >= 0 && rank < MV_MAXP) ? pending[rank] : 0;
     if (!e || e->stack_state) { ulk(); mt_fail("ledger: stack allocation without a preceding record allocation on worker %d", rank); }
+    /* finished threads leave their stack by a jump, so ASan's shadow for old frames is stale */
+    UNPOISON(lo, (size_t)(hi - lo));
     e->lo = lo; e->hi = hi; e->stack_state = 1;
     h->state = 1; h->e = e; h->poisoned = 0;
     if (n_owned_stacks >= 8192) { ulk(); mt_reject("ledger: too many live stacks"); }
@@ -93,6 +106,7 @@ static void on_free(int kind, void * ptr, size_t size, int rank) {
     if (&probe >= e->lo && &probe < e->hi) { ulk(); mt_fail("ledger: stack [%p,%p) released while the releasing code is still running on it (before the final switch-away)", (void *)e->lo, (void *)e->hi); }
     size_t sz = size ? size : def_stack;
     if ((size_t)(e->hi - e->lo) != sz) { ulk(); mt_fail("ledger: stack released with size %zu, allocated with %zu", sz, (size_t)(e->hi - e->lo)); }
+    UNPOISON(e->lo, (size_t)(e->hi - e->lo));
     e->stack_state = 2; e->stack_frees++; e->stack_free_rank = rank;
     if (rank != e->alloc_rank) cross_frees++;
     for (int i = 0; i < n_owned_stacks; i++) if (owned_stacks[i] == e) { owned_stacks[i] = owned_stacks[--n_owned_stacks]; break; }
